@@ -1,6 +1,6 @@
 (** C10 — changing representation loses nothing: the obligations, written out in full. *)
 From Coq Require Import List NArith ZArith String.
-From SK Require Import lib.LGraph lib.StrJoin model.C10_Model proof.C10_Proof.
+From SK Require Import lib.LGraph lib.StrJoin model.C10_Model proof.C10_Proof proof.C10_Hydrogen proof.C10_Routes.
 Import ListNotations.
 Local Open Scope Z_scope.
 
@@ -13,3 +13,28 @@ Theorem C10_label_roundtrip :
     extract_element_and_charge (el ++ charge_to_string c) = (el, c).
 Proof. exact label_roundtrip_full. Qed.
 Print Assumptions C10_label_roundtrip.
+
+(** Hydrogen count, explicit direction: h_to_explicit never changes the total hydrogen count
+    (sum of hcount + number of H nodes) — any graph (no well-formedness needed), any node list, both modes. *)
+Theorem C10_h_total_explicit :
+  forall (g : gr) (nodes : option (list N)) (its : bool),
+    total_h (h_to_explicit g nodes its) = total_h g.
+Proof. exact h_total_explicit. Qed.
+Print Assumptions C10_h_total_explicit.
+
+(** Hydrogen count, implicit direction: on the domain [h_dom] (every explicit H has hcount 0 and at most one
+    heavy neighbour, which is a node; H2 / H+ / lone H are inside: the repaired code keeps them) h_to_implicit
+    keeps the total.  [copy g] is the adjacency-ordered view of g that networkx iterates.  Outside the domain the
+    count changes (proof/C10_Hydrogen.v: h_total_implicit_bridge, h_total_implicit_hh). *)
+Theorem C10_h_total_implicit :
+  forall g : gr, NoDup (node_ids g) -> h_dom (copy g) = true -> total_h (h_to_implicit g) = total_h g.
+Proof. exact h_total_implicit. Qed.
+Print Assumptions C10_h_total_implicit.
+
+(** Two routes, reaction string vs ITS: after the RDKit half (r, p = rsmi_to_graph(smart); eo = the iteration
+    artefact of ITSGraph) smart_to_gml(core=True) and its_to_gml(ITSGraph(r, p), core=True) are the same record. *)
+Theorem C10_two_routes_string_its :
+  forall (r p : gr) (eo : list (N * N)) (reindex explicit_h : bool),
+    smart_to_gml r p eo true reindex explicit_h = its_to_gml (its_construct r p eo) true reindex explicit_h.
+Proof. exact two_routes_string_its. Qed.
+Print Assumptions C10_two_routes_string_its.
